@@ -26,7 +26,7 @@ OutNode(G) == CHOOSE i \in 1..Len(G) : G[i].out
 
 \* all permutations of 0..n-1 as sequences (values of PermutationFromPRF)
 RECURSIVE Perms(_)
-Perms(S) == IF S = {} THEN {<<>>} ELSE UNION {{<<x>> \o p : p \in Perms(S \ {x})} : x \in S}
+Perms(S) == IF S = {} THEN {<<>>} ELSE UNION {{<<e>> \o p : p \in Perms(S \ {e})} : e \in S}
 
 \* the sample space of one oracle entry
 PRFDomain(r) == IF r.op = "PRF" THEN AllValues(r.t) ELSE Perms(0..(r.n - 1))
@@ -45,17 +45,20 @@ Supported(G) == \A n \in 1..Len(G) : SupportedNode(G, n)
 ---------------------------------------------------------------------------
 (* Plain (single store) evaluation of a graph without randomness: the      *)
 (* reference meaning of a source graph.                                    *)
+(* (Parameter names deliberately differ from the variable names of the     *)
+(* modules that extend this one: TLC stops caching a constant definition   *)
+(* whose operators have a parameter named like a variable.)                *)
 RECURSIVE EvalFrom(_, _, _, _, _)
-EvalFrom(G, plans, n, store, x) ==
-  IF n > Len(G) THEN store
+EvalFrom(G, plans, n, vals, ins) ==
+  IF n > Len(G) THEN vals
   ELSE LET r == G[n]
            v == IF IsInput(r)
-                THEN x[CHOOSE k \in 1..Len(InputNodes(G)) : InputNodes(G)[k] = n]
-                ELSE Exec(plans[n], [i \in 1..Len(r.deps) |-> store[r.deps[i]]], r.ty)
-       IN EvalFrom(G, plans, n + 1, Append(store, v), x)
+                THEN ins[CHOOSE k \in 1..Len(InputNodes(G)) : InputNodes(G)[k] = n]
+                ELSE Exec(plans[n], [i \in 1..Len(r.deps) |-> vals[r.deps[i]]], r.ty)
+       IN EvalFrom(G, plans, n + 1, Append(vals, v), ins)
 
-Plans(G) == [n \in 1..Len(G) |-> IF IsInput(G[n]) \/ IsRandom(G[n]) \/ IsPRF(G[n])
-                                 THEN [p |-> "special"] ELSE PlanOf(G, n)]
+Plans(G) == TLCEval([n \in 1..Len(G) |-> IF IsInput(G[n]) \/ IsRandom(G[n]) \/ IsPRF(G[n])
+                                         THEN [p |-> "special"] ELSE PlanOf(G, n)])
 
-EvalPlain(G, plans, x) == EvalFrom(G, plans, 1, <<>>, x)[OutNode(G)]
+EvalPlain(G, plans, ins) == EvalFrom(G, plans, 1, <<>>, ins)[OutNode(G)]
 =============================================================================
